@@ -58,6 +58,8 @@ class C03(common.ModelProperty):
         "dontdup-found-existing",
         "unlink-removed-several",
         "unlink-removed-mixed-types",
+        "two-ended-link-given-third-end",
+        "vertex-side-remove-of-multiply-listed-vertex",
     ]
 
     def make_config(self, rng):
@@ -65,6 +67,13 @@ class C03(common.ModelProperty):
             rng, kinds=KINDS, always=("mk_edge",), multi_p=0.25
         )
         cfg["multi_no_repeat"] = True
+        if rng.random() < 0.25:
+            # list-level calls on two-ended links too: edges with a third end,
+            # with one end, with a vertex named twice (reachable through the
+            # public API; the model gives them the documented list semantics)
+            cfg["degenerate"] = True
+            for k in ("add_to_link", "add_vertex", "remove_from_link", "unlink_from", "mk_vertex_links"):
+                cfg["weights"][k] = rng.choice([1, 1, 2])
         cfg["p_bad"] = rng.choice([0.0, 0.05, 0.1])
         cfg["nested_universes"] = rng.random() < 0.5
         cfg["max_universes"] = cfg["nu"] + 1
